@@ -521,6 +521,13 @@ func (c *Ctx) ghostComp(env *CEnv, name string, ref string, sort string) string 
 			c.assume("true", fmt.Sprintf("(and (bvsle %s %s) (bvsle %s %s) (bvsle %s #x4000000000000000))", i64(0), p, p, l, l))
 		}
 	}
+	if name == "sid" {
+		key := "sid|" + t
+		if !c.streamInv[key] && c.noName == 0 {
+			c.streamInv[key] = true
+			c.assume("true", fmt.Sprintf("(and (>= %s 1) (<= %s 4095))", t, t))
+		}
+	}
 	if name == "peeked" || name == "bsize" {
 		key := t
 		if !c.streamInv[key] && c.noName == 0 {
